@@ -604,6 +604,7 @@ impl<'a, 'b> ParserState<'a, 'b> {
                             .chunks_exact(2);
 
                         let only_empties = pairs.len() > 0
+                            && pairs.remainder().is_empty()
                             && pairs.all(|tokens| {
                                 matches!(tokens, [BinaryToken::Array(x), BinaryToken::End(y)] if *x == y + 1)
                             });
